@@ -2276,7 +2276,15 @@ where
         let end = self.read.index();
         if should_replace && start < end {
             let slice = self.read.slice_unchecked(start, end);
-            *schema = crate::from_slice(slice)?;
+            *schema = crate::from_slice(slice).map_err(|err| {
+                // the value was parsed on its own: locate its error in the whole input
+                if err.line() == 0 {
+                    err
+                } else {
+                    let offset = start + err.offset();
+                    crate::Error::syntax(err.error_code(), self.read.as_u8_slice(), offset)
+                }
+            })?;
         }
         Ok(())
     }
